@@ -84,6 +84,8 @@ func C18(c *Ctx) {
 	r.Rule("R18.4", "sequence numbers: batchSeqNo is written only by the constructor, SetBatchSeqNo and one increment in generateBlock, after which generateBlock cannot return an error (the number is always carried by a returned batch).")
 	r.Rule("R18.5", "promotion: filterReady adds to the ready list only on the edge nonce == demanded nonce and advances the demanded nonce by one on that edge.")
 	r.Rule("R18.6", "the commit nonce is what was committed: nonceCache.updateCommittedNonce hands each account's reported nonce to setCommitNonce unchanged (the value of the map it ranges over, on every path); a nonce adjusted on the way - e.g. clamped to the pending nonce - makes generateBlock start an account below its committed nonce and batch transactions a second time.")
+	r.Rule("R18.7", batchedMarkText)
+	c.batchedMarks("R18.7")
 	c.c18CommitNonce()
 	r.NotDecided = append(r.NotDecided, "history-dependent consistency of the indices over arrival/commit interleavings; restart reload of nonces; the unbounded batch when the ready counter is 0 while ready transactions exist (reported as information)")
 
@@ -300,11 +302,13 @@ func C18(c *Ctx) {
 		r.Floor("R18.2", "inclusion sites", nIncl, 4)
 		// batchSize = min(mpi.batchSize, priorityNonBatchSize)
 		okMin := false
-		for _, b := range gb.Blocks {
-			if ifi := core.IfOf(b); ifi != nil {
-				if bo, ok := ifi.Cond.(*ssa.BinOp); ok && (bo.Op == token.GTR || bo.Op == token.LSS || bo.Op == token.GEQ || bo.Op == token.LEQ) {
-					if (mentionsField("priorityNonBatchSize")(bo.X) && mentionsField("batchSize")(bo.Y)) || (mentionsField("batchSize")(bo.X) && mentionsField("priorityNonBatchSize")(bo.Y)) {
-						okMin = true
+		for _, rf := range c.regionOf(gb, 2) {
+			for _, b := range rf.fn.Blocks {
+				if ifi := core.IfOf(b); ifi != nil {
+					if bo, ok := ifi.Cond.(*ssa.BinOp); ok && (bo.Op == token.GTR || bo.Op == token.LSS || bo.Op == token.GEQ || bo.Op == token.LEQ) {
+						if (mentionsField("priorityNonBatchSize")(bo.X) && mentionsField("batchSize")(bo.Y)) || (mentionsField("batchSize")(bo.X) && mentionsField("priorityNonBatchSize")(bo.Y)) {
+							okMin = true
+						}
 					}
 				}
 			}
@@ -320,7 +324,7 @@ func C18(c *Ctx) {
 			}
 			for _, in := range sites(fn, storesToField("mempoolImpl", "batchSeqNo")) {
 				nw++
-				ok := fn.Name() == "SetBatchSeqNo" || fn.Name() == "newMempoolImpl" || fn == gb
+				ok := fn.Name() == "SetBatchSeqNo" || fn.Name() == "newMempoolImpl" || fn == gb || c.onlyCalledFrom(fn, func(f *ssa.Function) bool { return f == gb })
 				r.Check(ok, "R18.4", shortFn(fn)+": batchSeqNo writer", c.P.Pos(in.Pos()), "constructor / SetBatchSeqNo / generateBlock", "the batch sequence number is written by an unexpected function")
 				if fn == gb {
 					st := in.(*ssa.Store)
@@ -427,4 +431,40 @@ func (c *Ctx) c18CommitNonce() {
 			"the nonce stored as commit nonce is not (on every path) the one reported for the account: after an out-of-order commit the pool believes an older nonce is the committed one, and generateBlock batches transactions below the committed nonce again")
 	}
 	r.Floor("R18.6", "setCommitNonce calls in updateCommittedNonce", n, 1)
+}
+
+const batchedMarkText = "a batched mark leaves only with its transaction: the pool remembers in batchedTxs which (account, nonce) it has already handed to consensus, and generateBlock skips those; every delete(batchedTxs, k) takes k from the pool entry found in txHashMap for a hash of the reported commit list (the transaction that is being removed), never from a sweep over batchedTxs itself or from heights / ages - a mark removed while its batch is still in flight lets the same transaction be batched into a second block (shared by C18 R18.7 and C20 R20.9)."
+
+// batchedMarks: R18.7 / R20.9.
+func (c *Ctx) batchedMarks(rule string) {
+	r := c.R
+	n := 0
+	for _, fn := range c.P.ModuleFuncs(true) {
+		if core.PkgOf(fn) != "pkg/order/mempool" || len(fn.Blocks) == 0 {
+			continue
+		}
+		for _, call := range core.Calls(fn) {
+			bn, ok := call.Common().Value.(*ssa.Builtin)
+			if !ok || bn.Name() != "delete" || len(call.Common().Args) != 2 || !core.Mentions(call.Common().Args[0], fieldNamed("batchedTxs")) {
+				continue
+			}
+			n++
+			k := call.Common().Args[1]
+			fromHashMap := core.Mentions(k, func(v ssa.Value) bool {
+				lk, ok := v.(*ssa.Lookup)
+				return ok && core.Mentions(lk.X, fieldNamed("txHashMap"))
+			})
+			fromOwnRange := core.Mentions(k, func(v ssa.Value) bool {
+				nx, ok := v.(*ssa.Next)
+				if !ok {
+					return false
+				}
+				rg, ok := nx.Iter.(*ssa.Range)
+				return ok && core.Mentions(rg.X, fieldNamed("batchedTxs"))
+			})
+			r.Check(fromHashMap && !fromOwnRange, rule, fmt.Sprintf("%s: batched mark removed with its transaction #%d", shortFn(fn), n), c.P.Pos(call.Pos()), "the key is the pool entry found in txHashMap for a committed hash",
+				"a mark is deleted from batchedTxs under a key that is not the entry of a transaction being removed (a sweep over the marks, by height or age): the mark of a batch that is still in flight disappears and generateBlock batches the same transaction again - one transaction in two delivered blocks")
+		}
+	}
+	r.Floor(rule, "deletes from batchedTxs", n, 1)
 }
